@@ -266,7 +266,8 @@ theorem saveJson_shape_aux (K : Consts) (ts : TypeSystem) (cass : List Cas) (ci 
           have hnd : ((Xmi.sortById st'.allFs).map (·.1)).Nodup := (hperm.map (·.1)).nodup_iff.mpr inv.nodupK
           cases mode
           all_goals
-            simp only at h
+            simp only [renderTypes] at h
+            try (split at h; (· cases h))
             cases h
             refine ⟨c, sofaFss, fsElems, rfl, rfl, hids, hnd, ?_, ?_⟩
             · simp only [List.map_map]
